@@ -29,7 +29,8 @@ pub struct SessionHeartbeatConfig {
 struct HeartbeatState {
     interval: Duration,
     timeout: Duration,
-    last_received: tokio::sync::Mutex<Instant>,
+    /// When the last HeartResponse arrived (None until the first one)
+    last_received: tokio::sync::Mutex<Option<Instant>>,
 }
 
 /// Session manages multiple streams over a single TLS connection
@@ -145,7 +146,7 @@ impl Session {
             Arc::new(HeartbeatState {
                 interval: cfg.interval,
                 timeout: cfg.timeout,
-                last_received: tokio::sync::Mutex::new(Instant::now()),
+                last_received: tokio::sync::Mutex::new(None),
             })
         });
 
@@ -774,7 +775,7 @@ impl Session {
 
                 if let Some(heartbeat_state) = &self.heartbeat {
                     let mut last = heartbeat_state.last_received.lock().await;
-                    *last = Instant::now();
+                    *last = Some(Instant::now());
                 }
             }
             _ => {
@@ -1244,62 +1245,101 @@ impl Session {
                 let session_id = session.id();
                 let mut ticker = time::interval(heartbeat_state.interval);
                 ticker.set_missed_tick_behavior(MissedTickBehavior::Delay);
+                // Send time of the first keep-alive request since the peer's last answer. The
+                // peer has `timeout` from that moment to answer; a request that was answered is
+                // never held against it, whatever the interval/timeout ratio.
+                let mut awaiting: Option<Instant> = None;
 
                 loop {
-                    ticker.tick().await;
-
-                    if session.is_closed() {
-                        tracing::debug!(
-                            session_id = session_id,
-                            "[Session] Heartbeat loop exiting because session is closed"
-                        );
-                        break;
-                    }
-
-                    let last_seen = {
-                        let guard = heartbeat_state.last_received.lock().await;
-                        Instant::now().saturating_duration_since(*guard)
+                    let deadline = awaiting.map(|sent| sent + heartbeat_state.timeout);
+                    let expired = async {
+                        match deadline {
+                            Some(at) => time::sleep_until(at).await,
+                            None => std::future::pending::<()>().await,
+                        }
                     };
 
-                    if last_seen > heartbeat_state.timeout {
-                        tracing::warn!(
-                            session_id = session_id,
-                            elapsed_ms = last_seen.as_millis() as u64,
-                            "[Session] Heartbeat timeout detected; closing session"
-                        );
-                        if let Err(e) = session.close().await {
-                            tracing::error!(
-                                session_id = session_id,
-                                "[Session] Failed to close session after heartbeat timeout: {}",
-                                e
-                            );
-                        }
-                        break;
-                    }
+                    tokio::select! {
+                        _ = ticker.tick() => {
+                            if session.is_closed() {
+                                tracing::debug!(
+                                    session_id = session_id,
+                                    "[Session] Heartbeat loop exiting because session is closed"
+                                );
+                                break;
+                            }
 
-                    if let Err(e) = session
-                        .write_control_frame(Frame::control(Command::HeartRequest, 0))
-                        .await
-                    {
-                        tracing::error!(
-                            session_id = session_id,
-                            "[Session] Failed to send HeartRequest: {}",
-                            e
-                        );
-                        if let Err(close_err) = session.close().await {
+                            if let Some(sent) = awaiting {
+                                let last = *heartbeat_state.last_received.lock().await;
+                                if matches!(last, Some(at) if at >= sent) {
+                                    awaiting = None;
+                                }
+                            }
+                            let sent = *awaiting.get_or_insert_with(Instant::now);
+
+                            // The request must not keep the deadline from being noticed: a peer
+                            // that has stopped reading blocks the writer.
+                            let request = session
+                                .write_control_frame(Frame::control(Command::HeartRequest, 0));
+                            match time::timeout_at(sent + heartbeat_state.timeout, request).await {
+                                Ok(Ok(())) => {
+                                    tracing::trace!(
+                                        session_id = session_id,
+                                        "[Session] Heartbeat request sent successfully"
+                                    );
+                                }
+                                Ok(Err(e)) => {
+                                    tracing::error!(
+                                        session_id = session_id,
+                                        "[Session] Failed to send HeartRequest: {}",
+                                        e
+                                    );
+                                    if let Err(close_err) = session.close().await {
+                                        tracing::warn!(
+                                            session_id = session_id,
+                                            "[Session] Failed to close session after heartbeat error: {}",
+                                            close_err
+                                        );
+                                    }
+                                    break;
+                                }
+                                Err(_) => {
+                                    tracing::warn!(
+                                        session_id = session_id,
+                                        "[Session] Heartbeat request could not be sent before the timeout; closing session"
+                                    );
+                                    if let Err(e) = session.close().await {
+                                        tracing::error!(
+                                            session_id = session_id,
+                                            "[Session] Failed to close session after heartbeat timeout: {}",
+                                            e
+                                        );
+                                    }
+                                    break;
+                                }
+                            }
+                        }
+                        _ = expired => {
+                            let sent = awaiting.expect("a deadline implies an outstanding request");
+                            let last = *heartbeat_state.last_received.lock().await;
+                            if matches!(last, Some(at) if at >= sent) {
+                                awaiting = None;
+                                continue;
+                            }
                             tracing::warn!(
                                 session_id = session_id,
-                                "[Session] Failed to close session after heartbeat error: {}",
-                                close_err
+                                "[Session] Heartbeat timeout detected; closing session"
                             );
+                            if let Err(e) = session.close().await {
+                                tracing::error!(
+                                    session_id = session_id,
+                                    "[Session] Failed to close session after heartbeat timeout: {}",
+                                    e
+                                );
+                            }
+                            break;
                         }
-                        break;
                     }
-
-                    tracing::trace!(
-                        session_id = session_id,
-                        "[Session] Heartbeat request sent successfully"
-                    );
                 }
             });
         }
